@@ -81,6 +81,16 @@ StepQuery ==
              /\ UNCHANGED <<text, starts, memo, edit>>
         ELSE Query(Ev.k, Ev.p, Ev.f, Ev)
 
+\* A query issued after Load and before Collect: the targets / origins of the context are those of the previous buffer
+\* (Session allows Query in that state - Load and Collect are independent steps of the caller).  Only the outcome
+\* alphabet and the frame condition are asserted: ranges that come out of stale targets are the caller's data.
+StepStale ==
+  /\ Ev.ev = "QS"
+  /\ LET v == Panics(Ev) \cup (IF \E s \in DOMAIN Ev.hist : Ev.hist[s] > 0 /\ s \notin Statuses /\ s # "panic"
+                                THEN {[l |-> l, prop |-> "C01", what |-> "outcome outside {ok,error}", n |-> 1, first |-> 0]} ELSE {}) IN
+     /\ bad' = bad \cup v
+     /\ IF v # {} THEN UNCHANGED svars ELSE Query(Ev.k, Ev.p, Ev.f, [Ev EXCEPT !.fp = ""])
+
 StepDet ==
   /\ Ev.ev = "Det"
   /\ IF Has(memo, Ev.key) /\ memo[Ev.key] # Ev.dg
@@ -143,7 +153,7 @@ Finish ==
 TNext ==
   \/ /\ l <= Len(Trace)
      /\ l' = l + 1
-     /\ (StepInit \/ StepLoad \/ StepCollect \/ StepQuery \/ StepDet \/ StepInsert \/ StepShift \/ StepRace \/ StepLookup)
+     /\ (StepInit \/ StepLoad \/ StepCollect \/ StepQuery \/ StepStale \/ StepDet \/ StepInsert \/ StepShift \/ StepRace \/ StepLookup)
   \/ Finish
 
 TSpec == TInit /\ [][TNext]_tvars
